@@ -58,6 +58,7 @@ type IterPlan struct {
 	SleepNs      int64         `json:"sleep,omitempty"`       // body duration before the behaviour takes place
 	After        int64         `json:"after,omitempty"`       // extra sleep after a non-stopping behaviour
 	LateHelperNs int64         `json:"late_helper,omitempty"` // a goroutine started by the body calls Errorf this long after the body returned
+	RacyHelper   bool          `json:"racy_helper,omitempty"` // the body signals a helper goroutine that calls Errorf and does not wait for it
 	Cleanups     []CleanupPlan `json:"cleanups,omitempty"`
 	// CleanupsLate: register the cleanups after the sleep instead of at the start
 	CleanupsLate bool `json:"late,omitempty"`
@@ -112,9 +113,10 @@ type H1Cfg struct {
 	SignalBetweenRuns bool              `json:"signal_between_runs,omitempty"` // f1 driver: SIGINT arrives while no run is active
 	C01LateCancel     bool              `json:"c01_late_cancel,omitempty"`
 	LateHelper        bool              `json:"late_helper_profile,omitempty"`
-	Flags1            map[string]string `json:"flags_first_run,omitempty"` // trigger flags of the first run only (later runs use Flags): nothing of them may survive
-	FilePathKind      string            `json:"file_path_kind,omitempty"`  // file mode: "dir" = the path names a directory, "missing" = nothing there
-	MemProfile        bool              `json:"memprofile,omitempty"`      // driver f1: pass --memprofile
+	RacyHelper        bool              `json:"racy_helper_profile,omitempty"` // outcomes of iterations with a racy helper are not predicted
+	Flags1            map[string]string `json:"flags_first_run,omitempty"`     // trigger flags of the first run only (later runs use Flags): nothing of them may survive
+	FilePathKind      string            `json:"file_path_kind,omitempty"`      // file mode: "dir" = the path names a directory, "missing" = nothing there
+	MemProfile        bool              `json:"memprofile,omitempty"`          // driver f1: pass --memprofile
 	C03Overload       bool              `json:"c03_overload,omitempty"`
 	Prog              ScenarioProg      `json:"prog"`
 	CancelAtNs        int64             `json:"cancel_at,omitempty"`   // after Do was called; <0 = cancel before Do
@@ -737,6 +739,14 @@ func (h h1) Gen(prop, tier string, r *simrt.Rng) (any, simrt.Config) {
 	sc.MaxSimNs += c.StartOffsetNs
 	if c.LateHelper {
 		sc.StallPermille = 0
+	}
+	if (prop == "C01" || prop == "C16") && c.Mode != "file" && len(c.Prog.Components) == 0 && r.Intn(10) == 0 {
+		c.RacyHelper, c.Metrics = true, true
+		for i := range c.Prog.Iter {
+			if c.Prog.Iter[i].Behav == bPass && r.Intn(2) == 0 {
+				c.Prog.Iter[i].RacyHelper = true
+			}
+		}
 	}
 	if c.Prog.Rendezvous > 0 && sc.StallMaxMs > 30 {
 		sc.StallMaxMs = 30
